@@ -15,6 +15,8 @@
 //!   R<line>          one REPL line: CommandRunner::try_run_command (real `save` etc.), else interpret + push_to_history
 //!   L<path>          content of the file at <path> (what `save` wrote)
 //!   A<code>          parse only: numbat::verif::syntax::dump_ast (statement trees, or ERR <kind>)
+//!   G<module>        binding structure of a builtin module (hook numbat::verif::session::module_items on the text
+//!                    the BuiltinModuleImporter serves): uses, defined names, free identifiers per statement
 //!   U<module>        can `use <module>` still be imported on a CLONE, and what does it add?
 //! output line: one item per I/F/J/D/d/U field, separated by TAB (escaped the same way)
 //!   I → ok|<value or ->|<type or ->|<prints>      or  err|<stage>:<Kind>|<prints>   or  PANIC
@@ -437,6 +439,16 @@ fn run_case(line: &str) -> String {
                     catch_unwind(AssertUnwindSafe(|| numbat::verif::syntax::dump_ast(&code)))
                         .unwrap_or_else(|_| "PANIC".into()),
                 );
+            }
+            "G" => {
+                let path = ModulePath(rest.split("::").map(|x| x.into()).collect());
+                outs.push(match BuiltinModuleImporter::default().import(&path) {
+                    Some((code, _)) => catch_unwind(AssertUnwindSafe(|| {
+                        numbat::verif::session::module_items(&code)
+                    }))
+                    .unwrap_or_else(|_| "PANIC".into()),
+                    None => "NOMODULE".into(),
+                });
             }
             "L" => {
                 outs.push(std::fs::read_to_string(unesc(rest)).unwrap_or_else(|e| format!("@@IOERR {e}")));
